@@ -161,8 +161,50 @@ def program_c(kind, fi):
     return prog
 
 
+# D  three levels: a middle function that captured x shadows it with a plain `x = ..` and creates an inner function - the inner one
+#    captures the MIDDLE function's local (each execution of the middle function has its own); and `modify` with a value that compares
+#    equal to the old one (a fresh list with the same contents, a function value from the same literal) still replaces it.
+D_KINDS = ["mid_shadow_read", "mid_shadow_modify", "modify_equal_list", "modify_equal_fn"]
+
+
+def program_d(kind):
+    pre = [("assign", "in0", ("in", 0)), ("assign", "in1", ("in", 1)), ("assign", "in2", ("in", 2))]
+    if kind in ("mid_shadow_read", "mid_shadow_modify"):
+        inner_body = [("return", B("+", V("x"), V("n")))] if kind == "mid_shadow_read" else [("modify", "x", B("+", V("x"), V("n"))), ("return", V("x"))]
+        mk = ("def", "mk", [("x", "int")], "[fn(int) -> fn(int) -> int...]", [
+            ("def", "mid", [("m", "int")], "fn(int) -> int", [("assign", "x", B("+", V("x"), V("m"))), ("def", "inner", [("n", "int")], "int", inner_body), ("return", V("inner"))]),
+            ("def", "own", [("m", "int")], "fn(int) -> int", [("def", "rd", [("n", "int")], "int", [("return", B("+", V("x"), V("n")))]), ("return", V("rd"))]),
+            ("assign", "fs", ("list", [V("mid"), V("own")]), "[fn(int) -> fn(int) -> int...]"), ("return", V("fs"))])
+        return pre + [mk, ("assign", "o", ("call", "mk", [V("in0")])), ("assign", "midf", ("index", V("o"), 0)), ("assign", "ownf", ("index", V("o"), 1)),
+                      ("assign", "a", ("call", "midf", [V("in1")])), ("assign", "b", ("call", "midf", [V("in2")])), ("assign", "r", ("call", "ownf", [I(0)])),
+                      ("print", ("call", "a", [I(1)])), ("print", ("call", "b", [I(1)])), ("print", ("call", "a", [I(2)])), ("print", ("call", "r", [I(0)])),
+                      ("print", ("call", "b", [I(3)])), ("print", ("call", "r", [I(0)])), ("print", ("str", "end"))]
+    if kind == "modify_equal_list":
+        mk = ("def", "mk", [("v", "int")], "[fn(int) -> int...]", [
+            ("assign", "items", ("list", [V("v"), I(1)]), "[int...]"),
+            ("def", "setl", [("n", "int")], "int", [("assign", "fresh", ("list", [V("v"), I(1)]), "[int...]"), ("modify", "items", V("fresh")), ("expr", ("mcall", V("fresh"), "push", [V("n")])), ("return", ("mcall", V("items"), "len", []))]),
+            ("def", "rdl", [("n", "int")], "int", [("return", B("+", ("mcall", V("items"), "len", []), V("n")))]),
+            ("def", "sum0", [("n", "int")], "int", [("return", B("+", ("index", V("items"), 0), V("n")))]),
+            ("assign", "fs", ("list", [V("setl"), V("rdl"), V("sum0")]), "[fn(int) -> int...]"), ("return", V("fs"))])
+        return pre + [mk, ("assign", "o", ("call", "mk", [V("in0")])), ("assign", "s", ("index", V("o"), 0)), ("assign", "r", ("index", V("o"), 1)), ("assign", "z", ("index", V("o"), 2)),
+                      ("print", ("call", "r", [I(0)])), ("print", ("call", "s", [V("in1")])), ("print", ("call", "r", [I(0)])), ("print", ("call", "s", [V("in2")])),
+                      ("print", ("call", "r", [I(0)])), ("print", ("call", "z", [I(0)])), ("print", ("str", "end"))]
+    if kind == "modify_equal_fn":
+        mk = ("def", "mk", [("v", "int")], "[fn(int) -> int...]", [
+            ("def", "counter", [("c", "int")], "fn(int) -> int", [("def", "step", [("n", "int")], "int", [("modify", "c", B("+", V("c"), V("n"))), ("return", V("c"))]), ("return", V("step"))]),
+            ("assign", "cur", ("call", "counter", [V("v")])),
+            ("def", "tick", [("n", "int")], "int", [("return", ("call", "cur", [V("n")]))]),
+            ("def", "reset", [("n", "int")], "int", [("modify", "cur", ("call", "counter", [V("n")])), ("return", I(0))]),
+            ("assign", "fs", ("list", [V("tick"), V("reset")]), "[fn(int) -> int...]"), ("return", V("fs"))])
+        return pre + [mk, ("assign", "o", ("call", "mk", [V("in0")])), ("assign", "t", ("index", V("o"), 0)), ("assign", "rs", ("index", V("o"), 1)),
+                      ("print", ("call", "t", [I(1)])), ("print", ("call", "t", [V("in1")])), ("print", ("call", "rs", [V("in2")])), ("print", ("call", "t", [I(1)])),
+                      ("print", ("call", "t", [I(1)])), ("print", ("str", "end"))]
+    raise ValueError(kind)
+
+
 def select(tier, seed):
     items = [("A", pos, ok) for pos in POSITIONS for ok in OWNER_KINDS]
+    items += [("D", k, None) for k in D_KINDS]
     items += [("C", k, fi) for k in VIA_KINDS for fi in range(4) if not (k == "via_nested_maker" and fi)]
     rnd = random.Random(seed)
     nseq = 120 if tier == "quick" else 1200
@@ -178,11 +220,15 @@ def select(tier, seed):
 def program(kind, x, y):
     if kind == "C":
         return program_c(x, y)
+    if kind == "D":
+        return program_d(x)
     return program_a(x, y) if kind == "A" else program_b(x)
 
 
 def describe(item):
     kind, x, y = item
+    if kind == "D":
+        return "three levels / modify with an equal value: `%s`" % x
     if kind == "C":
         return "closure `%s` called from a context with same-named variables (`%s`)" % (["reader", "writer", "shadow", "later"][y], x)
     if kind == "A":
